@@ -173,7 +173,7 @@ func ruleGuardReceivers(c *Ctx, rule string) {
 // ruleChainOnlyWraps: a chain statement adds nothing of its own besides the final `return nil`.
 func ruleChainOnlyWraps(c *Ctx, rule string) {
 	L := c.L
-	fn := genFn(c, rule, "(*InjectorChainStmt).Stmt")
+	fn := genFn(c, rule, "(*InjectorChainStmt).Stmt#emits")
 	if fn == nil {
 		return
 	}
